@@ -280,7 +280,7 @@ def _argv(ent, job, kind, root):
 
 
 def _run(ent, job, kind, fault, tag):
-    root = runner.fresh_dir("if-%d-%s" % (os.getpid(), tag))
+    root = runner.fresh_dir("if-%07d-%s" % (os.getpid(), tag))
     os.makedirs(os.path.join(root, "src"))
     os.makedirs(os.path.join(root, "out"))
     rules = []
